@@ -3,10 +3,23 @@
   Functional ops: same lines as harness/c02_func.c, the answer must be identical to the harness's.
   Validation ops (relational part): `valxz <check> <data> <xz>`, `valblock <check> <data> <block>`, `valalone <lzma>`:
   the structural validator of Model/XzStruct.lean judges bytes produced by the real encoders.
+  Container-encoder tie (`encxz`, `encblock`, `encalone`): the encoder models of Model/XzEncode.lean are run with a payload
+  encoder that answers with the C encoder's own Compressed Data (cut out of the C output per Block by the structural
+  parser) and must reproduce the C output byte for byte: Stream Header, every Block Header (late-written or not),
+  Block Padding, Check, Index, Stream Footer, the fall-back decision.
+    encxz st <check> <cout> <F> f1..fF <B> d1 p1 .. dB pB              streamEncodeST      (lzma_stream_encoder)
+    encxz sc <avail> <check> <cout> <F> f1..fF <B> d1 p1 (B ≤ 1)       streamBufferEncode  (lzma_stream_buffer_encode, easy)
+    encxz mt <blocksize> <check> <cout> <F> f1..fF <B> d1 p1 .. dB pB  streamEncodeMT      (lzma_stream_encoder_mt)
+    encblock <tc> <avail> <check> <cout> <F> f1..fF d p               blockBufferEncode   (lzma_block_buffer_encode / _uncomp_)
+    encalone <cout> <lc> <lp> <pb> <dict> p                            aloneEncode         (lzma_alone_encoder)
+  `p` = "!" stands for "the raw encoder's output did not fit" (the C encoder fell back to uncompressed chunks).
+  Answer: `ok <len> …` when the model's bytes equal <cout>, `diff <offset> <model-len> <c-len>`, or `ret <lzma_ret>`.
 -/
 import XzVerif.Model.Proto
 import XzVerif.Model.Container
 import XzVerif.Model.XzStruct
+import XzVerif.Model.XzEncode
+import XzVerif.Model.XzEnv
 open XzVerif XzVerif.Proto XzVerif.Vli XzVerif.Container XzVerif.XzStruct
 
 /-- Fast hex → ByteArray ("-" = empty). -/
@@ -74,6 +87,87 @@ def parseRecord (tok : String) : Option IndexRecord :=
 def showVal : Except String String → String
   | .ok s => s
   | .error e => "bad " ++ e
+
+/-! ### container-encoder tie -/
+
+/-- first position where the two byte strings differ (`none` = equal) -/
+def firstDiff (a b : ByteArray) : Option Nat := Id.run do
+  let n := min a.size b.size
+  for i in [0:n] do
+    if a.get! i != b.get! i then return some i
+  if a.size = b.size then return none else return some n
+
+def cmpOut (model : List UInt8) (cout : ByteArray) (extra : String := "") : String :=
+  let m := ByteArray.mk model.toArray
+  match firstDiff m cout with
+  | none => s!"ok {m.size}{extra}"
+  | some i => s!"diff {i} {m.size} {cout.size}"
+
+/-- (data, payload) pairs: "!" as payload = longer than any limit the encoders use (so they fall back). -/
+def parsePairs : List String → Option (List (List UInt8 × Option (List UInt8)))
+  | [] => some []
+  | d :: p :: rest => do
+    let d ← hx d
+    let p ← if p == "!" then pure none else (hx p).map some
+    let r ← parsePairs rest
+    pure ((d, p) :: r)
+  | _ => none
+
+/-- The encoder environment of the tie: the payload encoder answers with the C encoder's bytes for that Block's data. -/
+def tieEnv (pairs : List (List UInt8 × Option (List UInt8))) (tooLong : Nat) : XzEncode.EncEnv :=
+  { encPayload := fun _ x =>
+      match pairs.find? (fun q => q.1 == x) with
+      | some (_, some p) => p
+      | some (_, none) => List.replicate tooLong 0
+      | none => []
+    rawInit := fun _ => .ok
+    check := XzEnv.fastCheck }
+
+def splitFilters (ws : List String) : Option (List FilterOpts × List String) :=
+  match ws with
+  | nf :: rest => do
+    let n ← nf.toNat?
+    if rest.length < n then none
+    else
+      let fs ← (rest.take n).mapM parseFilter
+      pure (fs, rest.drop n)
+  | [] => none
+
+def encXz (mode : String) (arg : Nat) (check : Nat) (cout : ByteArray) (ws : List String) : String :=
+  match splitFilters ws with
+  | none => "bad-op"
+  | some (fs, rest) =>
+    match rest with
+    | nb :: prs =>
+      match nb.toNat?, parsePairs prs with
+      | some nb, some pairs =>
+        if pairs.length ≠ nb then "bad-op"
+        else
+          let blocks := pairs.map (·.1)
+          let big := (blocks.map (·.length)).foldl max arg
+          let E := tieEnv pairs (blockBufferBound64 big + 1)
+          let cfg : XzEncode.Cfg := { check := check, filters := fs }
+          let r : Res (List UInt8) :=
+            if mode == "st" then XzEncode.streamEncodeST E cfg blocks
+            else if mode == "mt" then XzEncode.streamEncodeMT E cfg arg blocks
+            else XzEncode.streamBufferEncode E cfg blocks.flatten arg
+          match r with
+          | .ok out => cmpOut out cout
+          | .error e => s!"ret {e}"
+      | _, _ => "bad-op"
+    | [] => "bad-op"
+
+def encBlock (tc : Bool) (avail check : Nat) (cout : ByteArray) (ws : List String) : String :=
+  match splitFilters ws with
+  | some (fs, [d, p]) =>
+    match parsePairs [d, p] with
+    | some [(data, pay)] =>
+      let E := tieEnv [(data, pay)] (blockBufferBound64 data.length + 1)
+      match XzEncode.blockBufferEncode E tc check fs data avail with
+      | .ok b => cmpOut b.bytes cout s!" {b.unpadded} {b.uncompressed}"
+      | .error e => s!"ret {e}"
+    | _ => "bad-op"
+  | _ => "bad-op"
 
 def step (_ : Unit) (ws : List String) : Unit × String :=
   let bad := ((), "bad-op")
@@ -237,7 +331,30 @@ def step (_ : Unit) (ws : List String) : Unit × String :=
   | ["valalone", o] => match hexToBA o with
     | some o => ((), showVal (validateAlone o))
     | none => bad
-  | ["selftest"] => ((), if crcSelfTest then "ok" else "bad crc-self-test")
+  | "encxz" :: mode :: rest =>
+    if mode == "st" then
+      match rest with
+      | chk :: co :: more => match chk.toNat?, hexToBA co with
+        | some c, some co => ((), encXz "st" 0 c co more)
+        | _, _ => bad
+      | _ => bad
+    else
+      match rest with
+      | a :: chk :: co :: more => match a.toNat?, chk.toNat?, hexToBA co with
+        | some a, some c, some co => ((), if mode == "sc" ∨ mode == "mt" then encXz mode a c co more else "bad-op")
+        | _, _, _ => bad
+      | _ => bad
+  | "encblock" :: tc :: a :: chk :: co :: more => match tc.toNat?, a.toNat?, chk.toNat?, hexToBA co with
+    | some tc, some a, some c, some co => ((), encBlock (tc != 0) a c co more)
+    | _, _, _, _ => bad
+  | ["encalone", co, lc, lp, pb, d, p] => match hexToBA co, lc.toNat?, lp.toNat?, pb.toNat?, d.toNat?, hx p with
+    | some co, some lc, some lp, some pb, some d, some p =>
+      let E : XzEncode.EncEnv := { encPayload := fun _ _ => p, rawInit := fun _ => .ok, check := XzEnv.fastCheck }
+      match XzEncode.aloneEncode E lc lp pb d [] with
+      | .ok out => ((), cmpOut out co)
+      | .error e => ((), s!"ret {e}")
+    | _, _, _, _, _, _ => bad
+  | ["selftest"] => ((), if crcSelfTest && XzEnv.fastSelfTest then "ok" else "bad crc-self-test")
   | _ => bad
 
 def main : IO Unit := runLoop step ()
